@@ -21,13 +21,45 @@ def opaque(units):
     for kind, u in units:
         is_code = kind == "unit" and (u.get("fn") or "impl" in u["path"][-1] or "fn" in u["path"][-1])
         if is_code and not u.get("keep_body"):
-            out.append((kind, dict(u, opaque=True, no_canary=True, loops={}, loop_body_start={}, after_loop={}, inserts=[], body_start=None)))
+            out.append((kind, dict(u, opaque=True, no_canary=True, loops={}, loop_body_start={}, loop_body_end={}, after_loop={}, inserts=[], body_start=None,
+                                    rewrites=[r for r in u.get("rewrites", []) if r[0] not in ("R25", "R25b", "R26-forward-ref-op", "R7")])))
         else:
             out.append((kind, u))
     return out
 
 
 RET = lambda a=None, b=None: ("R0",)
+
+_INV = lambda post: """
+            invariant
+                i__ <= keys__@.len(),
+                keys__@.no_duplicates(),
+                forall|c: Commodity| keys__@.contains(c) <==> old_values.contains_key(c),
+                SELF.values@.dom() == old_values.dom(),
+                forall|j: int| 0 <= j < i__ ==> (#[trigger] SELF.values@[keys__@[j]]).val() == %s,
+                forall|j: int| i__ <= j < keys__@.len() ==> #[trigger] SELF.values@[keys__@[j]] == old_values[keys__@[j]],
+            decreases keys__@.len() - i__,
+""" % post
+_END = lambda post: """            proof {
+                assert forall|j: int| 0 <= j < i__ implies (#[trigger] SELF.values@[keys__@[j]]).val() == %s by {
+                    if j < i__ - 1 { assert(keys__@[j] != keys__@[i__ - 1]); }
+                }
+                assert forall|j: int| i__ <= j < keys__@.len() implies #[trigger] SELF.values@[keys__@[j]] == old_values[keys__@[j]] by {
+                    assert(keys__@[j] != keys__@[i__ - 1]);
+                }
+                assert(SELF.values@.dom() =~= old_values.dom());
+            }""" % post
+_START = "            proof { assert(keys__@.contains(keys__@[i__ as int])); }"
+
+
+def _mk(selfname, post, extra=""):
+    """loop contract of an R25 key-snapshot loop: entries before i__ carry `post`, the rest are untouched"""
+    return dict(loops={0: _INV(post).replace("SELF", selfname).replace("            decreases", extra + "            decreases")}, loop_body_start={0: _START}, loop_body_end={0: _END(post).replace("SELF", selfname)})
+
+
+MK_NEG = _mk("this", "-old_values[keys__@[j]].val()")
+MK_DIV = _mk("this", "old_values[keys__@[j]].val() / rhs.val()", "                rhs.val() != 0real,\n")
+MK_MUL = _mk("self", "old_values[keys__@[j]].val() * rhs.val()")
 IMPL_SA = ("impl SingleAmount {", "}")
 IMPL_PA = ("impl PostingAmount {", "}")
 IMPL_AM = ("impl Amount {", "}")
@@ -207,10 +239,61 @@ AMOUNT = [
       contract="""
         ensures r == all_zero(self@),   // @Amount.is_zero.every_commodity_zero
 """),
-    U("Amount::remove_zero_entries", AM, [r"impl<'ctx> Amount<'ctx>", r"pub fn remove_zero_entries\b"], fn="remove_zero_entries", wrap=IMPL_AM, opaque=True,
+    U("Amount::remove_zero_entries", AM, [r"impl<'ctx> Amount<'ctx>", r"pub fn remove_zero_entries\b"], fn="remove_zero_entries", wrap=IMPL_AM,
+      rewrites=[("R25c",)],
       contract="""
-        ensures final(self)@ == nz(old(self)@),   // (ASSUMED, L1: HashMap::retain)
-"""),
+        ensures final(self)@ == nz(old(self)@),   // @Amount.remove_zero_entries.drops_exactly_the_zero_valued_commodities
+""",
+      body_start="        let ghost old_values = self.values@;",
+      loops={0: """
+            invariant
+                i__ <= keys__@.len(),
+                keys__@.no_duplicates(),
+                forall|c: Commodity| keys__@.contains(c) <==> old_values.contains_key(c),
+                forall|c: Commodity| #[trigger] self.values@.contains_key(c) ==> old_values.contains_key(c) && self.values@[c] == old_values[c],
+                forall|j: int| 0 <= j < i__ ==> (self.values@.contains_key(#[trigger] keys__@[j]) <==> old_values[keys__@[j]].val() != 0real),
+                forall|j: int| i__ <= j < keys__@.len() ==> self.values@.contains_key(#[trigger] keys__@[j]),
+            decreases keys__@.len() - i__,
+"""},
+      inserts=[("before", "while i__ < keys__.len()", 0, """proof {
+            assert forall|j: int| 0 <= j < keys__@.len() implies self.values@.contains_key(#[trigger] keys__@[j]) by { assert(keys__@.contains(keys__@[j])); }
+        }
+        """)],
+      loop_body_start={0: "            proof { assert(keys__@.contains(keys__@[i__ as int])); }\n            let ghost before = self.values@;"},
+      loop_body_end={0: """            proof {
+                let ki = keys__@[i__ - 1];
+                assert(self.values@ =~= before || self.values@ =~= before.remove(ki));
+                assert(self.values@.contains_key(ki) <==> old_values[ki].val() != 0real);
+                assert forall|c: Commodity| self.values@.contains_key(c) implies old_values.contains_key(c) && self.values@[c] == old_values[c] by {
+                    assert(before.contains_key(c));
+                    assert(self.values@[c] == before[c]);
+                }
+                assert forall|j: int| 0 <= j < i__ implies (self.values@.contains_key(#[trigger] keys__@[j]) <==> old_values[keys__@[j]].val() != 0real) by {
+                    if j < i__ - 1 { assert(keys__@[j] != keys__@[i__ - 1]); }
+                }
+                assert forall|j: int| i__ <= j < keys__@.len() implies self.values@.contains_key(#[trigger] keys__@[j]) by {
+                    assert(keys__@[j] != keys__@[i__ - 1]);
+                }
+            }"""},
+      after_loop={0: """        proof {
+            self.lemma_view(); old(self).lemma_view();
+            let want = nz(old(self)@);
+            assert forall|c: Commodity| self@.contains_key(c) <==> want.contains_key(c) by {
+                assert(want.contains_key(c) <==> (old(self)@.contains_key(c) && old(self)@[c] != 0real));
+                if old_values.contains_key(c) {
+                    assert(old(self)@[c] == old_values[c].val());
+                    assert(keys__@.contains(c));
+                    let j = choose|j: int| 0 <= j < keys__@.len() && keys__@[j] == c;
+                    assert(self.values@.contains_key(keys__@[j]) <==> old_values[keys__@[j]].val() != 0real);
+                }
+            }
+            assert forall|c: Commodity| self@.contains_key(c) implies #[trigger] self@[c] == want[c] by {
+                assert(self.values@.contains_key(c));
+                assert(self@[c] == self.values@[c].val());
+                assert(old(self)@[c] == old_values[c].val());
+            }
+            assert(self@ =~= want);
+        }"""}),
     U("Amount::set_partial", AM, [r"impl<'ctx> Amount<'ctx>", r"pub\(crate\) fn set_partial\b"], fn="set_partial", wrap=IMPL_AM,
       rewrites=[RET("-> SingleAmount<'ctx>", "-> (r: SingleAmount)")],
       body_start="        proof { self.lemma_view(); }",
@@ -227,41 +310,159 @@ AMOUNT = [
       contract="""
         ensures r.val() == mget(self@, commodity),   // @Amount.get_part
 """),
-    U("Amount::maybe_pair", AM, [r"impl<'ctx> Amount<'ctx>", r"pub fn maybe_pair\b"], fn="maybe_pair", wrap=IMPL_AM, opaque=True,
-      rewrites=[RET("-> Option<(SingleAmount<'ctx>, SingleAmount<'ctx>)>", "-> (r: Option<(SingleAmount, SingleAmount)>)")],
+    U("Amount::maybe_pair", AM, [r"impl<'ctx> Amount<'ctx>", r"pub fn maybe_pair\b"], fn="maybe_pair", wrap=IMPL_AM,
+      rewrites=[RET("-> Option<(SingleAmount<'ctx>, SingleAmount<'ctx>)>", "-> (r: Option<(SingleAmount, SingleAmount)>)"),
+                ("R24-first-two", "self.values.iter().zip(self.values.iter().skip(1)).next()?", "hashmap_first_two(&self.values)?", 1)],
+      body_start="        proof { self.lemma_view(); }",
       contract="""
         ensures
-            r is Some <==> self@.dom().len() == 2,
+            r is Some <==> self@.dom().len() == 2,                                                      // @Amount.maybe_pair.some_iff_exactly_two_commodities
             r matches Some((a, b)) ==> a.commodity != b.commodity && self@.dom() == set![a.commodity, b.commodity]
-                && a.v() == self@[a.commodity] && b.v() == self@[b.commodity],   // (ASSUMED, L1: zip/skip over HashMap::iter)
-"""),
-    U("Amount::round", AM, [r"impl<'ctx> Amount<'ctx>", r"pub fn round\b"], fn="round", wrap=IMPL_AM, opaque=True,
-      rewrites=[RET("-> Self", "-> (r: Self)")],
+                && a.v() == self@[a.commodity] && b.v() == self@[b.commodity],                          // @Amount.maybe_pair.the_two_entries
+""",
+      inserts=[("before", "Some((", 0, """proof {
+            broadcast use vstd::set_lib::group_set_lib_default;
+            let d = self.values@.dom();
+            assert(d.contains(*c1) && d.contains(*c2));
+            assert(d.remove(*c1).remove(*c2).len() == 0);
+            assert(d =~= set![*c1, *c2]);
+        }
+        """)]),
+    U("Amount::round", AM, [r"impl<'ctx> Amount<'ctx>", r"pub fn round\b"], fn="round", wrap=IMPL_AM,
+      rewrites=[("R7",), RET("-> Self", "-> (r: Self)")],
       contract="""
-        ensures r@ == rounded(ctx, self@),   // (ASSUMED, L1: HashMap::iter_mut) every commodity rounded to its declared precision, none added or dropped
+        ensures r@ == rounded(ctx, self@),   // @Amount.round.every_commodity_to_its_declared_precision
 """),
-    U("Amount::negate", AM, [r"impl<'ctx> Amount<'ctx>", r"pub fn negate\b"], fn="negate", wrap=IMPL_AM, opaque=True,
-      rewrites=[RET("-> Self", "-> (r: Self)")],
+    U("Amount::round_mut", AM, [r"impl<'ctx> Amount<'ctx>", r"pub fn round_mut\b"], fn="round_mut", wrap=IMPL_AM,
+      rewrites=[("R25",), ("R1-path", "rust_decimal::RoundingStrategy::MidpointNearestEven", "rust_decimal::RoundingStrategy::MidpointNearestEven", 1)],
       contract="""
-        ensures r@ == mneg(self@),   // (ASSUMED, L1: HashMap::iter_mut)
-"""),
-    U("Amount::check_div", AM, [r"impl<'ctx> Amount<'ctx>", r"pub fn check_div\b"], fn="check_div", wrap=IMPL_AM, opaque=True,
-      rewrites=[RET("-> Result<Self, EvalError>", "-> (r: Result<Self, EvalError>)")],
+        ensures final(self)@ == rounded(ctx, old(self)@),   // @Amount.round_mut.every_commodity_to_its_declared_precision_none_added_or_dropped
+""",
+      loops={0: """
+            invariant
+                i__ <= keys__@.len(),
+                keys__@.no_duplicates(),
+                forall|c: Commodity| keys__@.contains(c) <==> old(self).values@.contains_key(c),
+                self.values@.dom() == old(self).values@.dom(),
+                forall|j: int| 0 <= j < i__ ==> (#[trigger] self.values@[keys__@[j]]).val() == ctx_round(ctx, keys__@[j], old(self).values@[keys__@[j]].val()),
+                forall|j: int| i__ <= j < keys__@.len() ==> #[trigger] self.values@[keys__@[j]] == old(self).values@[keys__@[j]],
+            decreases keys__@.len() - i__,
+"""},
+      loop_body_start={0: "            proof { assert(keys__@.contains(keys__@[i__ as int])); }"},
+      loop_body_end={0: """            proof {
+                assert forall|j: int| 0 <= j < i__ implies (#[trigger] self.values@[keys__@[j]]).val() == ctx_round(ctx, keys__@[j], old(self).values@[keys__@[j]].val()) by {
+                    if j < i__ - 1 { assert(keys__@[j] != keys__@[i__ - 1]); }
+                }
+                assert forall|j: int| i__ <= j < keys__@.len() implies #[trigger] self.values@[keys__@[j]] == old(self).values@[keys__@[j]] by {
+                    assert(keys__@[j] != keys__@[i__ - 1]);
+                }
+                assert(self.values@.dom() =~= old(self).values@.dom());
+            }"""},
+      after_loop={0: """        proof {
+            self.lemma_view(); old(self).lemma_view();
+            assert forall|c: Commodity| self@.contains_key(c) implies #[trigger] self@[c] == rounded(ctx, old(self)@)[c] by {
+                assert(keys__@.contains(c));
+                let j = choose|j: int| 0 <= j < keys__@.len() && keys__@[j] == c;
+                assert(self.values@[keys__@[j]].val() == ctx_round(ctx, keys__@[j], old(self).values@[keys__@[j]].val()));
+            }
+            assert(self@ =~= rounded(ctx, old(self)@));
+        }"""}),
+    U("Amount::negate", AM, [r"impl<'ctx> Amount<'ctx>", r"pub fn negate\b"], fn="negate", wrap=IMPL_AM,
+      rewrites=[("R7",), RET("-> Self", "-> (r: Self)"), ("R25",)],
+      contract="""
+        ensures r@ == mneg(self@),   // @Amount.negate.every_commodity_negated_none_added_or_dropped
+""",
+      body_start="        let ghost old_values = self.values@;",
+      after_loop={0: """        proof {
+            this.lemma_view(); self.lemma_view();
+            assert forall|c: Commodity| this@.contains_key(c) implies #[trigger] this@[c] == mneg(self@)[c] by {
+                assert(keys__@.contains(c));
+                let j = choose|j: int| 0 <= j < keys__@.len() && keys__@[j] == c;
+                assert(this.values@[keys__@[j]].val() == -old_values[keys__@[j]].val());
+            }
+            assert(this@ =~= mneg(self@));
+        }"""},
+      **MK_NEG),
+    U("Amount::check_div", AM, [r"impl<'ctx> Amount<'ctx>", r"pub fn check_div\b"], fn="check_div", wrap=IMPL_AM,
+      rewrites=[("R7",), RET("-> Result<Self, EvalError>", "-> (r: Result<Self, EvalError>)"), ("R25",)],
       contract="""
         ensures
-            rhs.val() == 0real ==> r == Err::<Self, EvalError>(EvalError::DivideByZero),
+            rhs.val() == 0real ==> r == Err::<Self, EvalError>(EvalError::DivideByZero),                 // @Amount.check_div.rejects_zero_divisor
             rhs.val() != 0real ==> (r matches Ok(x) && x@ == mdiv(self@, rhs.val()))
-                                   || r == Err::<Self, EvalError>(EvalError::NumberOverflow),   // (ASSUMED, L1: HashMap::iter_mut)
-"""),
+                                   || r == Err::<Self, EvalError>(EvalError::NumberOverflow),           // @Amount.check_div.every_commodity_divided_or_overflow
+""",
+      body_start="        let ghost old_values = self.values@;",
+      after_loop={0: """        proof {
+            this.lemma_view(); self.lemma_view();
+            assert forall|c: Commodity| this@.contains_key(c) implies #[trigger] this@[c] == mdiv(self@, rhs.val())[c] by {
+                assert(keys__@.contains(c));
+                let j = choose|j: int| 0 <= j < keys__@.len() && keys__@[j] == c;
+                assert(this.values@[keys__@[j]].val() == old_values[keys__@[j]].val() / rhs.val());
+            }
+            assert(this@ =~= mdiv(self@, rhs.val()));
+        }"""},
+      **MK_DIV),
     U("Neg for Amount", AM, [r"impl Neg for Amount<'_>"], fn="neg",
       rewrites=[RET("-> Self::Output", "-> (r: Self)")],
       contract="""
         ensures r@ == mneg(self@),   // @Amount.neg
 """),
-    U("AddAssign<Amount> for Amount", AM, [r"impl AddAssign for Amount<'_>"], fn="add_assign", opaque=True,
+    U("AddAssign<Amount> for Amount", AM, [r"impl AddAssign for Amount<'_>"], fn="add_assign",
+      rewrites=[("R25b",), ("R26-forward-ref-op", "v1 += v2;", "*v1 += v2;", 1)],
       contract="""
-        ensures final(self)@ == madd(old(self)@, rhs@),   // (ASSUMED, L1: HashMap::into_iter loop)
-"""),
+        ensures final(self)@ == madd(old(self)@, rhs@),   // @Amount.add_assign.pointwise_sum_keeps_every_commodity_of_either_side
+""",
+      body_start="        let ghost old_values = self.values@;",
+      loops={0: """
+            invariant
+                i__ <= entries__@.len(),
+                lists_entries(entries__@, rhs.values@),
+                forall|j: int| 0 <= j < i__ ==> self.values@.contains_key((#[trigger] entries__@[j]).0)
+                    && self.values@[entries__@[j].0].val() == (if old_values.contains_key(entries__@[j].0) { old_values[entries__@[j].0].val() } else { 0real }) + entries__@[j].1.val(),
+                forall|c: Commodity| #[trigger] untouched(entries__@, i__ as int, c) ==>
+                    (self.values@.contains_key(c) <==> old_values.contains_key(c)) && (old_values.contains_key(c) ==> self.values@[c] == old_values[c]),
+            decreases entries__@.len() - i__,
+"""},
+      loop_body_start={0: """            proof {
+                assert forall|j: int| 0 <= j < i__ implies (#[trigger] entries__@[j]).0 != entries__@[i__ as int].0 by { }
+                assert(untouched(entries__@, i__ as int, entries__@[i__ as int].0));
+            }
+            let ghost before = self.values@;"""},
+      loop_body_end={0: """            proof {
+                let ci = entries__@[i__ - 1].0;
+                assert(self.values@ =~= before.insert(ci, self.values@[ci]));
+                assert forall|j: int| 0 <= j < i__ implies self.values@.contains_key((#[trigger] entries__@[j]).0)
+                    && self.values@[entries__@[j].0].val() == (if old_values.contains_key(entries__@[j].0) { old_values[entries__@[j].0].val() } else { 0real }) + entries__@[j].1.val() by {
+                    if j < i__ - 1 { assert(entries__@[j].0 != ci); }
+                }
+                assert forall|c: Commodity| #[trigger] untouched(entries__@, i__ as int, c) implies
+                    (self.values@.contains_key(c) <==> old_values.contains_key(c)) && (old_values.contains_key(c) ==> self.values@[c] == old_values[c]) by {
+                    assert(entries__@[i__ - 1].0 != c);
+                    assert(untouched(entries__@, i__ - 1, c));
+                }
+            }"""},
+      after_loop={0: """        proof {
+            self.lemma_view(); old(self).lemma_view(); rhs.lemma_view();
+            let want = madd(old(self)@, rhs@);
+            assert forall|c: Commodity| self@.contains_key(c) <==> want.contains_key(c) by {
+                if rhs.values@.contains_key(c) {
+                    let j = choose|j: int| 0 <= j < entries__@.len() && (#[trigger] entries__@[j]).0 == c;
+                    assert(self.values@.contains_key(entries__@[j].0));
+                } else {
+                    assert(untouched(entries__@, entries__@.len() as int, c));
+                }
+            }
+            assert forall|c: Commodity| self@.contains_key(c) implies #[trigger] self@[c] == want[c] by {
+                if rhs.values@.contains_key(c) {
+                    let j = choose|j: int| 0 <= j < entries__@.len() && (#[trigger] entries__@[j]).0 == c;
+                    assert(self.values@[entries__@[j].0].val() == (if old_values.contains_key(c) { old_values[c].val() } else { 0real }) + entries__@[j].1.val());
+                    assert(rhs.values@[c] == entries__@[j].1);
+                } else {
+                    assert(untouched(entries__@, entries__@.len() as int, c));
+                }
+            }
+            assert(self@ =~= want);
+        }"""}),
     U("Add<Amount> for Amount", AM, [r"impl Add for Amount<'_>"], fn="add",
       rewrites=[("R7",), RET("-> Self::Output", "-> (r: Self)")],
       contract="""
@@ -283,19 +484,83 @@ AMOUNT = [
             rhs is Zero ==> final(self)@ == old(self)@,
             rhs matches PostingAmount::Single(s) ==> final(self)@ == old(self)@.insert(s.commodity, mget(old(self)@, s.commodity) + s.v()),   // @Amount.add_assign_posting
 """),
-    U("SubAssign for Amount", AM, [r"impl SubAssign for Amount<'_>"], fn="sub_assign", opaque=True,
+    U("SubAssign for Amount", AM, [r"impl SubAssign for Amount<'_>"], fn="sub_assign",
+      rewrites=[("R25b",), ("R26-forward-ref-op", "v1 -= v2;", "*v1 -= v2;", 1)],
       contract="""
-        ensures final(self)@ == msub(old(self)@, rhs@),   // (ASSUMED, L1: HashMap::into_iter loop)
-"""),
+        ensures final(self)@ == msub(old(self)@, rhs@),   // @Amount.sub_assign.pointwise_difference_keeps_every_commodity_of_either_side
+""",
+      body_start="        let ghost old_values = self.values@;",
+      loops={0: """
+            invariant
+                i__ <= entries__@.len(),
+                lists_entries(entries__@, rhs.values@),
+                forall|j: int| 0 <= j < i__ ==> self.values@.contains_key((#[trigger] entries__@[j]).0)
+                    && self.values@[entries__@[j].0].val() == (if old_values.contains_key(entries__@[j].0) { old_values[entries__@[j].0].val() } else { 0real }) - entries__@[j].1.val(),
+                forall|c: Commodity| #[trigger] untouched(entries__@, i__ as int, c) ==>
+                    (self.values@.contains_key(c) <==> old_values.contains_key(c)) && (old_values.contains_key(c) ==> self.values@[c] == old_values[c]),
+            decreases entries__@.len() - i__,
+"""},
+      loop_body_start={0: """            proof {
+                assert forall|j: int| 0 <= j < i__ implies (#[trigger] entries__@[j]).0 != entries__@[i__ as int].0 by { }
+                assert(untouched(entries__@, i__ as int, entries__@[i__ as int].0));
+            }
+            let ghost before = self.values@;"""},
+      loop_body_end={0: """            proof {
+                let ci = entries__@[i__ - 1].0;
+                assert(self.values@ =~= before.insert(ci, self.values@[ci]));
+                assert forall|j: int| 0 <= j < i__ implies self.values@.contains_key((#[trigger] entries__@[j]).0)
+                    && self.values@[entries__@[j].0].val() == (if old_values.contains_key(entries__@[j].0) { old_values[entries__@[j].0].val() } else { 0real }) - entries__@[j].1.val() by {
+                    if j < i__ - 1 { assert(entries__@[j].0 != ci); }
+                }
+                assert forall|c: Commodity| #[trigger] untouched(entries__@, i__ as int, c) implies
+                    (self.values@.contains_key(c) <==> old_values.contains_key(c)) && (old_values.contains_key(c) ==> self.values@[c] == old_values[c]) by {
+                    assert(entries__@[i__ - 1].0 != c);
+                    assert(untouched(entries__@, i__ - 1, c));
+                }
+            }"""},
+      after_loop={0: """        proof {
+            self.lemma_view(); old(self).lemma_view(); rhs.lemma_view();
+            let want = msub(old(self)@, rhs@);
+            assert forall|c: Commodity| self@.contains_key(c) <==> want.contains_key(c) by {
+                if rhs.values@.contains_key(c) {
+                    let j = choose|j: int| 0 <= j < entries__@.len() && (#[trigger] entries__@[j]).0 == c;
+                    assert(self.values@.contains_key(entries__@[j].0));
+                } else {
+                    assert(untouched(entries__@, entries__@.len() as int, c));
+                }
+            }
+            assert forall|c: Commodity| self@.contains_key(c) implies #[trigger] self@[c] == want[c] by {
+                if rhs.values@.contains_key(c) {
+                    let j = choose|j: int| 0 <= j < entries__@.len() && (#[trigger] entries__@[j]).0 == c;
+                    assert(self.values@[entries__@[j].0].val() == (if old_values.contains_key(c) { old_values[c].val() } else { 0real }) - entries__@[j].1.val());
+                    assert(rhs.values@[c] == entries__@[j].1);
+                } else {
+                    assert(untouched(entries__@, entries__@.len() as int, c));
+                }
+            }
+            assert(self@ =~= want);
+        }"""}),
     U("Sub for Amount", AM, [r"impl Sub for Amount<'_>"], fn="sub",
       rewrites=[("R7",), RET("-> Self::Output", "-> (r: Self)")],
       contract="""
         ensures r@ == msub(self@, rhs@),   // @Amount.sub.pointwise
 """),
-    U("MulAssign<Decimal> for Amount", AM, [r"impl MulAssign<Decimal> for Amount<'_>"], fn="mul_assign", opaque=True,
+    U("MulAssign<Decimal> for Amount", AM, [r"impl MulAssign<Decimal> for Amount<'_>"], fn="mul_assign",
+      rewrites=[("R25",)],
       contract="""
-        ensures final(self)@ == mscale(old(self)@, rhs.val()),   // (ASSUMED, L1: HashMap::iter_mut)
-"""),
+        ensures final(self)@ == mscale(old(self)@, rhs.val()),   // @Amount.mul_assign.every_commodity_scaled_none_added_or_dropped
+""",
+      body_start="        let ghost old_values = self.values@;",
+      after_loop={0: """        proof {
+            self.lemma_view(); old(self).lemma_view();
+            assert forall|c: Commodity| self@.contains_key(c) implies #[trigger] self@[c] == mscale(old(self)@, rhs.val())[c] by {
+                assert(keys__@.contains(c));
+                let j = choose|j: int| 0 <= j < keys__@.len() && keys__@[j] == c;
+                assert(self.values@[keys__@[j]].val() == old_values[keys__@[j]].val() * rhs.val());
+            }
+            assert(self@ =~= mscale(old(self)@, rhs.val()));
+        }"""},
+      **MK_MUL),
     U("Mul<Decimal> for Amount", AM, [r"impl Mul<Decimal> for Amount<'_>"], fn="mul",
       rewrites=[("R7",), RET("-> Self::Output", "-> (r: Self)")],
       contract="""
